@@ -78,10 +78,21 @@ guard_case go 'go statement' 'func f() { go func() {}() }'
 guard_case select 'select' 'func f() { select {} }'
 guard_case waitgroup 'sync.WaitGroup' 'import "sync"
 var wg sync.WaitGroup'
-guard_case once 'sync.Once' 'import "sync"
+warn_case() { # name, expected text, body: non-blocking synchronisation is rewritten and listed, not refused
+	d=$WORK/guard-$1
+	mkdir -p "$d/core"
+	printf 'module github.com/truora/minidyn\n\ngo 1.20\n' >"$d/go.mod"
+	printf 'package core\n\n%s\n' "$3" >"$d/core/core.go"
+	out=$("$SR" -dir "$d" -simrt "$STUB" -sites "$WORK/warn-$1.json" 2>&1); rc=$?
+	if [ $rc -eq 0 ] && grep -q "$2 at core/core.go" "$WORK/warn-$1.json"; then ok "$1: listed as unmodelled non-blocking sync"; else bad "$1: rc=$rc $out"; fi
+}
+warn_case once 'sync.Once' 'import "sync"
 func f() { var o sync.Once; o.Do(func() {}) }'
-guard_case atomic 'sync/atomic' 'import "sync/atomic"
+warn_case atomic 'sync/atomic.AddInt32' 'import "sync/atomic"
 func f(p *int32) { atomic.AddInt32(p, 1) }'
+warn_case syncmap 'sync.Map' 'import "sync"
+var m sync.Map
+func f() { m.Store(1, 2); m.Load(1) }'
 guard_case methodvalue 'mutex method value' 'import "sync"
 func f(mu *sync.Mutex) func() { return mu.Unlock }'
 guard_case trylock 'TryLock' 'import "sync"
